@@ -134,3 +134,19 @@ From XcpPins Require Import Pin_operations_drop.
 Theorem C10_src_pin_operations_drop : pin_unchanged name_operations_drop.
 Proof. exact pin_operations_drop. Qed.
 Print Assumptions C10_src_pin_operations_drop.
+
+(* ---- further functions on this property's path, pinned token for token as validated (dependency review after rounds 5 and 6:
+   each missed change had edited a pinned function that this property did not cite) ---- *)
+From XcpPins Require Import Pin_parfile_copy_worker Pin_parblock_dispatch_worker Pin_parblock_queue_file_blocks Pin_operations_copy_file.
+Theorem C10_src_pin_parfile_copy_worker : pin_unchanged name_parfile_copy_worker.
+Proof. exact pin_parfile_copy_worker. Qed.
+Theorem C10_src_pin_parblock_dispatch_worker : pin_unchanged name_parblock_dispatch_worker.
+Proof. exact pin_parblock_dispatch_worker. Qed.
+Theorem C10_src_pin_parblock_queue_file_blocks : pin_unchanged name_parblock_queue_file_blocks.
+Proof. exact pin_parblock_queue_file_blocks. Qed.
+Theorem C10_src_pin_operations_copy_file : pin_unchanged name_operations_copy_file.
+Proof. exact pin_operations_copy_file. Qed.
+Print Assumptions C10_src_pin_parfile_copy_worker.
+Print Assumptions C10_src_pin_parblock_dispatch_worker.
+Print Assumptions C10_src_pin_parblock_queue_file_blocks.
+Print Assumptions C10_src_pin_operations_copy_file.
